@@ -547,6 +547,20 @@ func c18Run(c *Ctx) {
 			c18Judge(c, cs)
 		}
 	}
+	// operator chains: every ordered pair of binary operators over operands for which the two
+	// possible groupings usually differ (so a parenthesisation that disagrees with the parser shows)
+	for _, o1 := range c02BinOps {
+		for _, o2 := range c02BinOps {
+			src := Lines(Print("9 "+o1+" 4 "+o2+" 2"), Print("2 "+o1+" 3 "+o2+" 2"), Print("- 2 "+o1+" 64 "+o2+" 3"), Print("100 "+o1+" 7 "+o2+" 2 "+o1+" 3"))
+			cs := c18Case(c, r, "operator-chains", src, "")
+			if cs == nil {
+				continue
+			}
+			if c.Mine() {
+				c18Judge(c, cs)
+			}
+		}
+	}
 	n := c.N(2500, 50000)
 	for k := 0; k < n; k++ {
 		g := NewPG(r, 8+r.Intn(30))
@@ -584,6 +598,6 @@ func init() {
 		Assumptions: []string{"no expected output is needed (metamorphic); transforms never use the code under test; programs exceeding 300000 evaluation steps are skipped"},
 		Run:         c18Run,
 		Judge:       c18Judge,
-		MustCount:   func(c *Ctx) []string { return []string{"pairs:layout", "pairs:digit-script", "pairs:logical-synonyms", "pairs:rename", "pairs:parentheses", "pairs:dead-code", "pairs:parentheses-full", "pairs:all-combined", "originals_clean", "originals_failing", "gen:shipped-examples", "cli_runs"} },
+		MustCount:   func(c *Ctx) []string { return []string{"pairs:layout", "pairs:digit-script", "pairs:logical-synonyms", "pairs:rename", "pairs:parentheses", "pairs:dead-code", "pairs:parentheses-full", "pairs:all-combined", "originals_clean", "originals_failing", "gen:shipped-examples", "gen:operator-chains", "cli_runs"} },
 	})
 }
